@@ -419,11 +419,21 @@ def _serde_name_uses(r, R, format_site):
     fn = b.name
     # the String local holding it: follow must_use
     holders = {format_site.node["dest"]["l"]}
-    for cs in b.calls():
-        if cname(cs.node) == "std::hint::must_use" and cs.node["args"]:
-            p = mir.op_place(cs.node["args"][0])
-            if p is not None and p["l"] in holders:
-                holders.add(cs.node["dest"]["l"])
+    grown = True
+    while grown:        # must_use(x) and whole-value moves (the result of an inlined text builder moved into the caller's variable)
+        grown = False
+        for cs in b.calls():
+            if cname(cs.node) == "std::hint::must_use" and cs.node["args"]:
+                p = mir.op_place(cs.node["args"][0])
+                if p is not None and not p["p"] and p["l"] in holders and cs.node["dest"]["l"] not in holders and not cs.node["dest"]["p"]:
+                    holders.add(cs.node["dest"]["l"])
+                    grown = True
+        for a in b.assigns():
+            if a.node["rv"]["k"] == "use" and not a.node["place"]["p"] and a.node["place"]["l"] not in holders:
+                p = mir.op_place(a.node["rv"]["op"])
+                if p is not None and not p["p"] and p["l"] in holders:
+                    holders.add(a.node["place"]["l"])
+                    grown = True
     uses = []
     for h in list(holders):
         for s in b.sites():
@@ -633,6 +643,14 @@ def constructor_rules(r, lib):
             if not aggs and len(deleg) == 1 and effects == [cname(deleg[0].node)] and not f["inputs"]:
                 r.ob("R10.5.preset-is-constant", path, True, "returns the value of the preset %s unchanged" % cname(deleg[0].node), site=mir.line_of(b.span), key="R10.5|preset|%s" % path)
                 continue
+            if not f["inputs"]:
+                # a preset may start from another preset (`Self { f: .., ..Self::other() }`): judge the value it returns
+                from .deps import preset_body, returned_options
+                b = preset_body(lib, path)
+                effects = [cname(cs.node) for cs in b.calls() if cname(cs.node) not in (
+                    "std::string::ToString::to_string", "std::convert::Into::into", "std::convert::From::from", "std::borrow::ToOwned::to_owned",
+                    "std::clone::Clone::clone", "std::string::String::new", "std::string::String::from")]
+                aggs = returned_options(b)
             ok = len(aggs) == 1 and not effects
             vals = {}
             if ok:
